@@ -2,7 +2,7 @@
    Statements only; proofs in NsfixModel.v over the model NsfixDefs.v (+ GenNsfix.v, regenerated
    from /repo on every run).  What is and is not proved is said in props/C14.claim.json. *)
 From Coq Require Import List NArith.
-Require Import XV.GenNsfix XV.NsfixDefs XV.NsfixModel XV.NsfixStep.
+Require Import XV.GenNsfix XV.NsfixDefs XV.NsfixModel XV.NsfixStep XV.NsfixWhole.
 Import ListNotations.
 Local Open Scope N_scope.
 
@@ -50,6 +50,34 @@ Print Assumptions declared_default_resolves.
 Theorem found_prefix_resolves : forall k u p, prefix_for_ns k u = Some p -> ns_for_prefix k p = Some u.
 Proof. exact prefix_for_ns_sound. Qed.
 Print Assumptions found_prefix_resolves.
+
+(* ---- the whole-program theorem ---- *)
+
+(* result_ns_wellformed_partial: for EVERY list of the modelled constructors (literal result
+   elements with exclude-result-prefixes, xsl:element, xsl:attribute with or without namespace=,
+   text, end tags; any nesting, any prefixes/URIs, any history), if the run raises no hazard
+   (exact decidable guard guard_ok: K17 duplicate expanded name, KN6 p:e with namespace="",
+   xsl:attribute creating an xmlns declaration, and stylesheet-side arguments no stylesheet can
+   produce), the namespace-aware reader accepts every start tag the engine has written: the element
+   and each attribute resolve - through the declarations written on it and its ancestors - to
+   exactly the expanded name the instruction asked for, every prefix is declared, no declaration is
+   illegal, no qualified or expanded attribute name occurs twice.  Proof: an invariant tying the
+   result-namespace stack to the reader's scope (NsfixWhole.v), by induction over the list. *)
+Theorem result_ns_wellformed_partial : forall ops,
+  guard_ok ops = true -> wellformed (events (run ops)) = true.
+Proof. exact result_ns_wellformed_l. Qed.
+Print Assumptions result_ns_wellformed_partial.
+
+(* the same including the start tag that is still pending at the end of the list *)
+Theorem result_ns_wellformed_partial_pending : forall ops,
+  guard_ok ops = true -> wellformed (events (flush (run ops))) = true.
+Proof. exact result_ns_wellformed_closed_l. Qed.
+Print Assumptions result_ns_wellformed_partial_pending.
+
+(* hazards only accumulate: a prefix of a hazard-free program is hazard-free *)
+Theorem hazards_accumulate : forall s o, exists l, hz (exec_op s o) = l ++ hz s.
+Proof. exact hz_ext_op. Qed.
+Print Assumptions hazards_accumulate.
 
 (* ---- xsl:attribute with a namespace attribute, one instruction, every engine state ---- *)
 
